@@ -189,13 +189,13 @@ def run_socket_case(c):
                 t = threading.Thread(target=conn.close)
                 t.start()
                 n = 0
-                while t.is_alive() and n < 50:
+                while t.is_alive() and n < 500:
                     if thread_alive():
                         S.go.release()
                         after_release()
                     t.join(0.002)
                     n += 1
-                t.join(1)
+                t.join(10)
                 if t.is_alive():
                     return ['HANG']
                 out.append(0)
@@ -279,7 +279,7 @@ def run_real(kind):
         lst = []
         for _ in frames:
             try:
-                f = conn.wait_frame(timeout=1, exception=True)
+                f = conn.wait_frame(timeout=10, exception=True)
             except TimeoutException:
                 break
             lst.append(f)
@@ -303,7 +303,7 @@ def run_real(kind):
         if conn.wait_frame(timeout=0.03, exception=False) is not None:
             problems.append('exception=False returned a frame out of nothing')
         b.close()
-        time.sleep(0.05)
+        time.sleep(0.3)
         extra = 0
         for _ in range(20):
             try:
@@ -317,7 +317,7 @@ def run_real(kind):
         conn.close()
         if conn.rxthread is not None and conn.rxthread.is_alive():
             problems.append('receiver thread alive after close')
-        if time.monotonic() - t0 > 1.0:
+        if time.monotonic() - t0 > 10.0:
             problems.append('close took %.2f s' % (time.monotonic() - t0))
     finally:
         try:
